@@ -117,6 +117,13 @@ func ruleC09(c *Ctx) {
 	for _, f := range []*ssa.Function{rl, gc, cl, gg} {
 		c.useFn(f)
 	}
+	if tn := tname(rl.Params[0].Type()); tn != "*sync.WaitGroup" {
+		// completion is tracked by something else (an atomic counter, an errgroup, a semaphore): the
+		// Add / Done / Wait typestate is not this code's protocol, nothing is claimed about it
+		c.undecided("CHANLIFE", "ligation workers", rl.Pos(), "the workers are not counted on a *sync.WaitGroup (first parameter is "+tn+"); the Add/Done/Wait/close ordering rules do not apply to this protocol")
+		checkGoldenGate(c, gg)
+		return
+	}
 	checkCircularLigate(c, cl, rl, gc)
 	recGos := checkWorkerLifecycle(c, rl)
 	checkLigationTerms(c, rl, recGos)
